@@ -552,15 +552,18 @@ func (w *Whisper) fetchRawPoints(archiveID int, fromInterval, untilInterval Time
 	arcStartOffset := r.offset
 	arcEndOffset := arcStartOffset + r.numberOfPoints*pointSize
 
+	// NOTE: i < len(points) matters only for a damaged file: with a base
+	// interval which is not a multiple of the step, fromOffset can be equal
+	// to untilOffset although less than a whole lap was requested.
 	i := 0
-	for off := fromOffset; off < arcEndOffset; off += pointSize {
+	for off := fromOffset; off < arcEndOffset && i < len(points); off += pointSize {
 		points[i], err = w.readPointAt(off)
 		if err != nil {
 			return nil, err
 		}
 		i++
 	}
-	for off := arcStartOffset; off < untilOffset; off += pointSize {
+	for off := arcStartOffset; off < untilOffset && i < len(points); off += pointSize {
 		points[i], err = w.readPointAt(off)
 		if err != nil {
 			return nil, err
